@@ -498,7 +498,8 @@ Abs == INSTANCE LabRunAbs WITH
   cachedNow <- cached,
   cacheVals <- store,
   obsCache <- (pc \in {"returned", "raised"}),
-  envok <- {}
+  envok <- {},
+  marks <- {}, emitted <- <<>>, delivered <- <<>>, obsLogs <- FALSE
 
 A_C01_Keys == Abs!C01_Keys
 A_C01_Values == Abs!C01_Values
@@ -523,6 +524,8 @@ A_C11_NoIdleWait == Abs!C11_NoIdleWait
 A_C14_ExitClass == Abs!C14_ExitClass
 A_C14_NoStartAfterInterrupt == [][Abs!C14_NoStartAfterInterrupt_Step]_vars
 A_C14_RunningFinish == Abs!C14_RunningFinish
+A_C14_RunningCached == Abs!C14_RunningCached
+A_C14_CacheConsistent == Abs!C14_CacheConsistent
 A_C17_Retained == Abs!C17_Retained
 A_C17_Prompt == Abs!C17_Prompt
 A_C17_Captured == Abs!C17_Captured
